@@ -86,7 +86,7 @@ def do_import(srcroot, only=()):
             (dst / "meta.json").write_text(json.dumps(meta, indent=1))
 
 
-def do_run(ids, extra=False, worktree=False):
+def do_run(ids, extra=False, worktree=False, dry=False):
     """worktree=True: preliminary run in the property's scratch worktree /tmp/seed-<pid> (VERIF_REPO), so that several
     properties can be evaluated in parallel while /repo is busy; the recorded run is the one on /repo itself"""
     import os
@@ -108,7 +108,7 @@ def do_run(ids, extra=False, worktree=False):
             continue
         results = {}
         try:
-            pids = [pid] + ([p for p in meta.get("also_check", [])] if extra else [])
+            pids = [pid] + [p for p in meta.get("also_check", [])]
             for p in pids:
                 rc, o = sh(["./check", p], cwd=ROOT, timeout=1800, env=dict(os.environ, VERIF_REPO=REPO))
                 lines = [l for l in o.split("\n") if l.startswith("VIOLATION") or l.startswith(f"[{p}]")]
@@ -125,9 +125,14 @@ def do_run(ids, extra=False, worktree=False):
                 results[p] = info
         finally:
             sh(["git", "checkout", "--", "."], cwd=REPO)
+        if dry:      # regression pass: report, keep the recorded outcome
+            ok = any(r.get("violation") for r in results.values())
+            print(d.name, "CAUGHT" if ok else "MISSED", "(dry)", json.dumps(results)[:300], flush=True)
+            continue
         meta["check_results"] = results
         meta["checked_on"] = REPO
-        meta["caught"] = bool(results.get(pid, {}).get("violation"))
+        meta["caught_by"] = [p for p, r in results.items() if r.get("violation")]
+        meta["caught"] = bool(meta["caught_by"])
         (d / "meta.json").write_text(json.dumps(meta, indent=1))
         print(d.name, "CAUGHT" if meta["caught"] else "MISSED", json.dumps(results)[:400], flush=True)
     # clean the replays the runs produced
@@ -150,6 +155,6 @@ if __name__ == "__main__":
         do_import(sys.argv[2], sys.argv[3:])
     elif cmd == "run":
         a = [x for x in sys.argv[2:] if not x.startswith("--")]
-        do_run(a, extra="--extra" in sys.argv, worktree="--worktree" in sys.argv)
+        do_run(a, extra="--extra" in sys.argv, worktree="--worktree" in sys.argv, dry="--dry" in sys.argv)
     elif cmd == "table":
         do_table()
